@@ -2,7 +2,7 @@
 # usage: seed_batch.sh PID...   imports /tmp/seed/PID/OUT/m1,m2, confirms them and runs the property's quick check against each
 cd /verif
 for p in "$@"; do
-  for m in m1 m2; do
+  for m in ${MUTS:-m1 m2}; do
     [ -f /tmp/seed/$p/OUT/$m/patch.diff ] || continue
     tools/seed_eval.py import /tmp/seed/$p/OUT/$m ${p}-$m $p
     tools/seed_eval.py confirm ${p}-$m
